@@ -77,6 +77,9 @@ func (en *SpecEnv) eval(e ast.Expr) Val {
 			if !ok {
 				en.fail("bad int literal %s", e.Value)
 			}
+			if n.Cmp(big1) > 0 && n.BitLen() < 64 {
+				en.x.eng.litConsts[n.String()] = true
+			}
 			return constInt(nil, n)
 		case token.CHAR:
 			r, _, _, err := strconv.UnquoteChar(e.Value[1:len(e.Value)-1], '\'')
@@ -558,6 +561,16 @@ func (en *SpecEnv) evalCall(c *ast.CallExpr) Val {
 		return en.seqSub(q, en.eval(c.Args[1]).S, en.eval(c.Args[2]).S)
 	case "mkseq":
 		return Val{K: KSeq, S: en.eval(c.Args[0]).S, Len: en.eval(c.Args[1]).S}
+	case "isfresh":
+		// isfresh(x): x is nil or was allocated by this function activation (not reachable by the caller before)
+		v := en.eval(c.Args[0])
+		r := v.S
+		if v.K == KSlice {
+			r = v.Ref
+		} else if v.K == KIface {
+			r = v.Dat
+		}
+		return boolVal(mkOr(mkEq(r, "0"), mkCmp(">=", r, en.x.eng.declare("alloc@0", sInt))))
 	case "isnil":
 		v := en.eval(c.Args[0])
 		return boolVal(en.equal(v, Val{K: KInt, S: "0"}))
